@@ -15,21 +15,23 @@ CONSTANT Prop
 VARIABLES l, call, mon, log
 vars == <<l, call, mon, log>>
 
-NoCall == [name |-> "", me |-> 0, items |-> <<>>]
+\* the items of a call can be large (65536-byte pages): the state only remembers where the call event is
+NoCall == [name |-> "", me |-> 0, at |-> 0]
+Items == Rec[call.at].items
 Init == l = 1 /\ call = NoCall /\ mon = Mon0 /\ log = <<>>
 
 E == Rec[l]
 IsEvent(name) == l <= NRec /\ E.e = name /\ l' = l + 1
 
 CallEv == /\ IsEvent("call")
-          /\ call' = [name |-> E.name, me |-> E.me, items |-> E.items]
+          /\ call' = [name |-> E.name, me |-> E.me, at |-> l]
           /\ mon' = Mon0 /\ log' = <<>>
 
 Exchange ==
     /\ IsEvent("x")
     /\ call.name # ""
     /\ IF Prop = "C09"
-       THEN /\ mon' = XferMon(mon, call.me, XferOp(call.name), call.items, E.m, E.r)
+       THEN /\ mon' = XferMon(mon, call.me, XferOp(call.name), Items, E.m, E.r)
             /\ mon'.ph # "bad"
             /\ log' = IF E.m.k = "DataChunksSent" THEN Append(log, 1) ELSE log      \* only counts transfers
        ELSE /\ log' = Append(log, [m |-> E.m, r |-> E.r])
